@@ -625,3 +625,131 @@ Print Assumptions C11_tie_cw_translated_nonvacuous.
 Theorem C11_tie_C11_comp_reader_refines_src : ltac:(let t := type of SrcTie3CompCarry.C11_comp_reader_refines_src in exact t).
 Proof. exact SrcTie3CompCarry.C11_comp_reader_refines_src. Qed.
 Print Assumptions C11_tie_C11_comp_reader_refines_src.
+
+(* ================= work package `carry2`: THE TRANSLATED LAYER STACK is a cursor over the plaintext =================
+   Carry2Stack.StackSrc = CompressionLayerReader (gen/Src3c.v, compress.rs) over EncryptionLayerReader (gen/Src3e.v,
+   encrypt.rs) over RawLayerReader (gen/Src3d.v, raw.rs) over ANY I/O source — every layer of the stack
+   ArchiveReader::from_config builds is the Gallina generated from /repo on this run.  Under exactly the premises of
+   C11_stack_refines it behaves as a cursor over the plaintext (reads may be short, never empty before the end; every
+   seek whose target lies in [0, |plain|] lands there), and the translated constructors + initialize, in the order of
+   from_config, establish the invariant at position 0 (theories/Carry2Stack.v: composition of
+   C11_tie_src_comp_reader_refines, C11_enc_reader_refines_src, C11_tie_raw_stream_src with the model's layer theorems,
+   each parametric in the inner stream). *)
+From MLA Require Carry2Stack.
+Theorem C11_raw_reader_refines_src :
+  forall (S : Stream) (b : bytes) (R : RawLayer.rstate S -> N -> Prop),
+    Refines (RawReader S) b R -> Refines (Carry2Stack.RawReaderSrc S) b (fun x p => R (Carry2Stack.abs_raw S x) p).
+Proof. exact Carry2Stack.raw_reader_refines_src. Qed.
+
+Theorem C11_stack_refines_src :
+  forall CHUNK TAG BLOCK LIMIT : N, 0 < CHUNK -> 0 < TAG -> CHUNK + TAG <= 2 ^ 31 -> 0 < BLOCK -> BLOCK < 2 ^ 32 ->
+  forall (ks : N -> N -> N) (tagc : N -> bytes -> bytes), (forall (i : N) (c : bytes), len (tagc i c) = TAG) ->
+  forall comp dec : bytes -> bytes, (forall x : bytes, dec (comp x) = x) ->
+  forall (header plain : bytes) (nb : N),
+    (nb - 1) * BLOCK <= len plain <= nb * BLOCK ->
+    12 + 4 * nb <= LIMIT /\ 12 + 4 * nb < 2 ^ 32 ->
+    len plain < 2 ^ 63 ->
+    nfull CHUNK (len (compwire BLOCK comp plain nb)) + 2 < 2 ^ 32 ->
+    len (archive CHUNK BLOCK ks tagc comp header plain nb) < 2 ^ 64 ->
+  forall (S : Stream) (Rin : st S -> N -> Prop),
+    Refines S (archive CHUNK BLOCK ks tagc comp header plain nb) Rin ->
+  forall (site_enc site_c1 site_c2 site_c3 : N) (fuel : nat),
+    Refines (Carry2Stack.StackSrc CHUNK TAG BLOCK ks tagc dec S site_enc site_c1 site_c2 site_c3 fuel) plain
+      (Carry2Stack.Rstack_src CHUNK TAG BLOCK ks tagc comp dec header plain nb S Rin site_enc site_c1 site_c2 site_c3 fuel).
+Proof. exact Carry2Stack.stack_refines_src. Qed.
+
+Theorem C11_stack_open_src :
+  forall CHUNK TAG BLOCK LIMIT : N, 0 < CHUNK -> 0 < TAG -> CHUNK + TAG <= 2 ^ 31 -> 0 < BLOCK -> BLOCK < 2 ^ 32 ->
+  forall (ks : N -> N -> N) (tagc : N -> bytes -> bytes), (forall (i : N) (c : bytes), len (tagc i c) = TAG) ->
+  forall comp dec : bytes -> bytes, (forall x : bytes, dec (comp x) = x) ->
+  forall (header plain : bytes) (nb : N),
+    (nb - 1) * BLOCK <= len plain <= nb * BLOCK ->
+    12 + 4 * nb <= LIMIT /\ 12 + 4 * nb < 2 ^ 32 ->
+    len plain < 2 ^ 63 ->
+    nfull CHUNK (len (compwire BLOCK comp plain nb)) + 2 < 2 ^ 32 ->
+    len (archive CHUNK BLOCK ks tagc comp header plain nb) < 2 ^ 64 ->
+  forall (S : Stream) (Rin : st S -> N -> Prop),
+    Refines S (archive CHUNK BLOCK ks tagc comp header plain nb) Rin ->
+  forall (site_enc site_c1 site_c2 site_c3 : N) (fuel : nat) (i0 : st S),
+    (forall j : N, j < nb -> len (comp (block_at BLOCK plain j)) < 2 ^ 32) ->
+    Rin i0 (len header) ->
+    exists x, Carry2Stack.stack_open_src CHUNK TAG BLOCK LIMIT ks tagc dec S site_enc site_c1 site_c2 site_c3 fuel i0 = Ok x /\
+              Carry2Stack.Rstack_src CHUNK TAG BLOCK ks tagc comp dec header plain nb S Rin site_enc site_c1 site_c2 site_c3 fuel x 0.
+Proof. exact Carry2Stack.stack_open_spec_src. Qed.
+
+(* non-vacuity THROUGH THE GENERATED CODE: 20 bytes in blocks of 8 (identity "compression"), chunks of 16 (toy cipher,
+   TAG 4), behind a 3-byte header, over an in-memory cursor: the translated constructors and initialize open the stack,
+   translated reads and seeks (three whences) return the plaintext; and the premises of the two theorems hold of it *)
+Definition c2_plain : bytes := map N.of_nat (seq 100 20).
+Definition c2_arch : bytes := archive 16 8 toy_ks (toy_tag 4) (fun x => x) [1; 2; 3] c2_plain 3.
+Definition c2_stack : Stream := Carry2Stack.StackSrc 16 4 8 toy_ks (toy_tag 4) (fun x => x) (Cursor c2_arch) 0 0 0 0 0.
+Example C11_example_stack_src_computed :
+  match Carry2Stack.stack_open_src 16 4 8 1000 toy_ks (toy_tag 4) (fun x => x) (Cursor c2_arch) 0 0 0 0 0 3 with
+  | Ok x =>
+    let '(x1, r1) := rd c2_stack x 5 in
+    let '(x2, r2) := rd c2_stack x1 100 in
+    let '(x3, r3) := sk c2_stack x2 (FromEnd (-3)) in
+    let '(x4, r4) := rd c2_stack x3 100 in
+    let '(x5, r5) := sk c2_stack x4 (FromCur (-13)) in
+    let '(x6, r6) := rd c2_stack x5 2 in
+    let '(x7, r7) := sk c2_stack x6 (FromStart 15) in
+    let '(x8, r8) := rd c2_stack x7 100 in
+    (r1, r2, r3, r4) = (Ok [100; 101; 102; 103; 104], Ok [105; 106; 107], Ok 17, Ok [117; 118; 119]) /\
+    (r5, r6, r7, r8) = (Ok 7, Ok [107], Ok 15, Ok [115])
+  | _ => False
+  end.
+Proof. vm_compute. split; reflexivity. Qed.
+Example C11_example_stack_src_premises :
+  exists x, Carry2Stack.stack_open_src 16 4 8 1000 toy_ks (toy_tag 4) (fun x => x) (Cursor c2_arch) 0 0 0 0 0 3 = Ok x /\
+    exists x' k, rd c2_stack x 5 = (x', Ok (sliceN 0 k c2_plain)) /\ 0 < k.
+Proof.
+  assert (Hnb : (3 - 1) * 8 <= len c2_plain <= 3 * 8) by (vm_compute; split; discriminate).
+  assert (Hlim : 12 + 4 * 3 <= 1000 /\ 12 + 4 * 3 < 2 ^ 32) by (vm_compute; split; [discriminate | reflexivity]).
+  assert (Hin : Refines (Cursor c2_arch) (archive 16 8 toy_ks (toy_tag 4) (fun x => x) [1; 2; 3] c2_plain 3) (fun s p => s = p /\ p <= len c2_arch))
+    by exact (cursor_refines c2_arch).
+  destruct (C11_stack_open_src 16 4 8 1000 ltac:(reflexivity) ltac:(reflexivity) ltac:(vm_compute; discriminate) ltac:(reflexivity) ltac:(reflexivity)
+              toy_ks (toy_tag 4) (len_toy_tag 4) (fun x => x) (fun x => x) (fun x => eq_refl) [1; 2; 3] c2_plain 3 Hnb Hlim
+              ltac:(vm_compute; reflexivity) ltac:(vm_compute; reflexivity) ltac:(vm_compute; reflexivity)
+              (Cursor c2_arch) _ Hin 0 0 0 0 0%nat 3
+              ltac:(intros j _; unfold block_at; rewrite len_sliceN; lia) ltac:(split; [reflexivity | vm_compute; discriminate]))
+    as (x & Ho & HR).
+  exists x. split; [exact Ho|].
+  pose proof (C11_stack_refines_src 16 4 8 1000 ltac:(reflexivity) ltac:(reflexivity) ltac:(vm_compute; discriminate) ltac:(reflexivity) ltac:(reflexivity)
+                toy_ks (toy_tag 4) (len_toy_tag 4) (fun x => x) (fun x => x) (fun x => eq_refl) [1; 2; 3] c2_plain 3 Hnb Hlim
+                ltac:(vm_compute; reflexivity) ltac:(vm_compute; reflexivity) ltac:(vm_compute; reflexivity)
+                (Cursor c2_arch) _ Hin 0 0 0 0 0%nat) as Href.
+  destruct (ref_rd _ _ _ Href x 0 5 HR) as (x' & k & Hrd & _ & _ & Hk & _).
+  exists x', k. split; [exact Hrd|].
+  destruct (N.eq_dec k 0) as [->|Hne]; [|lia]. destruct (Hk eq_refl) as [H5|H0]; [discriminate | vm_compute in H0; discriminate].
+Qed.
+Print Assumptions C11_raw_reader_refines_src.
+Print Assumptions C11_stack_refines_src.
+Print Assumptions C11_stack_open_src.
+Print Assumptions C11_example_stack_src_premises.
+(* ---------- work package cfgT: the reader's stack is decided by the header byte and mirrors the stack the TRANSLATED writer built; translated from_config = the model's opening ---------- *)
+From MLA Require Config ConfigProofs SrcTie3Cfg SrcTie3CfgR SrcTie3CfgEx.
+From MLAGen Require Src3f.
+Theorem C11_cfg_reader_from_config_src : ltac:(let t := type of SrcTie3CfgR.reader_from_config_src in exact t).
+Proof. exact SrcTie3CfgR.reader_from_config_src. Qed.
+Print Assumptions C11_cfg_reader_from_config_src.
+Theorem C11_cfg_reader_stack_desc_src : ltac:(let t := type of SrcTie3CfgR.reader_stack_desc_src in exact t).
+Proof. exact SrcTie3CfgR.reader_stack_desc_src. Qed.
+Print Assumptions C11_cfg_reader_stack_desc_src.
+Theorem C11_cfg_reader_mirrors_writer_src : ltac:(let t := type of SrcTie3CfgR.reader_mirrors_writer_src in exact t).
+Proof. exact SrcTie3CfgR.reader_mirrors_writer_src. Qed.
+Print Assumptions C11_cfg_reader_mirrors_writer_src.
+Theorem C11_cfg_writer_from_config_archive_src : ltac:(let t := type of SrcTie3Cfg.writer_from_config_archive_src in exact t).
+Proof. exact SrcTie3Cfg.writer_from_config_archive_src. Qed.
+Print Assumptions C11_cfg_writer_from_config_archive_src.
+Theorem C11_cfg_archive_write_is_stack : ltac:(let t := type of ConfigProofs.archive_write_is_stack in exact t).
+Proof. exact ConfigProofs.archive_write_is_stack. Qed.
+Print Assumptions C11_cfg_archive_write_is_stack.
+Theorem C11_cfg_disable_layer_src : ltac:(let t := type of SrcTie3Cfg.disable_layer_src in exact t).
+Proof. exact SrcTie3Cfg.disable_layer_src. Qed.
+Print Assumptions C11_cfg_disable_layer_src.
+Theorem C11_cfg_disable_layer_differs : ltac:(let t := type of SrcTie3Cfg.disable_layer_differs in exact t).
+Proof. exact SrcTie3Cfg.disable_layer_differs. Qed.
+Print Assumptions C11_cfg_disable_layer_differs.
+Theorem C11_cfg_reader_from_config_examples : ltac:(let t := type of SrcTie3CfgEx.reader_from_config_examples in exact t).
+Proof. exact SrcTie3CfgEx.reader_from_config_examples. Qed.
+Print Assumptions C11_cfg_reader_from_config_examples.
